@@ -605,4 +605,52 @@ theorem ctor_write_breaks_results :
     ((trun { ctorWrites := false } (tinit 4 ttwo) [0, 1, 0, 0, 0, 1, 1, 1]).threads 1).results = [[(0, 4), (1, 4)]] := by
   decide +kernel
 
+
+/-! ### no unlocked shared container is written on the look-up hot path -/
+
+open SqlglotModel.Threads.Memo
+
+/-- finite table fact, decided completely (ast of `Dialect.get_or_raise`, `_Dialect.get / __getitem__ / _try_load`,
+    `Dialect.__init__` and the `Tokenizer` / `Parser` / `Generator` constructors): the only stores / deletes / mutating calls
+    on a module-level or class-level container outside a `with <lock>` are the audited ones (the `_classes` registry under
+    importlib's module lock, the idempotent `_DISPATCH_CACHE` fill); all the hot-path functions were found -/
+theorem hot_path_shared_containers_locked_or_absent :
+    hotPathUnlockedWrites = [] ∧ 7 ≤ hotPathFunctions := by decide
+
+/-- the memo on the hot path as the source has it: none (or, equivalently for the model, one that never evicts) -/
+def MFromSource (cfg : MCfg) : Prop :=
+  cfg.mode = if hotPathUnlockedWrites.isEmpty then .noEvict else .nonatomic
+
+theorem MFromSource.safe {cfg : MCfg} (h : MFromSource cfg) : cfg.mode ≠ .nonatomic := by
+  rw [h, hot_path_shared_containers_locked_or_absent.1]; decide
+
+/-- With no eviction — and likewise with an eviction that picks and deletes in one atomic step (under a lock) — no
+    look-up of any thread ever raises, in any reachable state, whatever the keys, the capacity and the interleaving. -/
+theorem memo_lookups_never_raise (cfg : MCfg) (hsafe : cfg.mode = .noEvict ∨ cfg.mode = .atomic) (cache0 : List Nat)
+    (progs : Tid → List Nat) (s : MState) (hr : MReach cfg (minit cache0 progs) s) (t : Tid) :
+    (s.threads t).errors = 0 :=
+  (MInvar.reach (by rcases hsafe with h | h <;> simp [h]) hr).noErr t
+
+/-- … and a thread that has nothing left to do has had every one of its look-ups return. -/
+theorem memo_all_lookups_return (cfg : MCfg) (hsrc : MFromSource cfg) (cache0 : List Nat) (progs : Tid → List Nat)
+    (sched : List Tid) (t : Tid)
+    (hdone : ((mrun cfg (minit cache0 progs) sched).threads t).todo = [] ∧
+             ((mrun cfg (minit cache0 progs) sched).threads t).pc = .idle) :
+    ((mrun cfg (minit cache0 progs) sched).threads t).finished = (progs t).length ∧
+    ((mrun cfg (minit cache0 progs) sched).threads t).errors = 0 := by
+  have hI := MInvar.reach hsrc.safe (mreach_mrun (MReach.init (cfg := cfg) (s0 := minit cache0 progs)) sched)
+  have hc := hI.count t
+  simp only [hdone.1, hdone.2, List.length_nil, if_true] at hc
+  exact ⟨by omega, hI.noErr t⟩
+
+/-- WHY: capacity 1, the cache holds key 7; threads 0 and 1 miss on keys 1 and 2 at the same time, both pick 7 as the
+    victim, thread 0 deletes it, thread 1's delete raises -/
+def mtwo : Tid → List Nat := fun t => if t = 0 then [1] else if t = 1 then [2] else []
+
+theorem nonatomic_evict_double_delete :
+    ((mrun { mode := .nonatomic, cap := 1 } (minit [7] mtwo) [0, 1, 0, 1]).threads 1).errors = 1 ∧
+    ((mrun { mode := .atomic, cap := 1 } (minit [7] mtwo) [0, 1, 0, 1]).threads 1).errors = 0 ∧
+    ((mrun { mode := .atomic, cap := 1 } (minit [7] mtwo) [0, 1, 0, 1]).threads 1).finished = 1 := by
+  decide +kernel
+
 end SqlglotModel.Properties.C19
